@@ -337,7 +337,9 @@ func (r *run) typeFacts(t types.Type, term string) string {
 		return fmt.Sprintf("(<= 0 %s)", term)
 	}
 	if so == "String" {
-		return fmt.Sprintf("(<= (str.len %s) 9223372036854775807)", term)
+		// no string is longer than 2^62 bytes (address space): lets index arithmetic such as
+		// at+4 stay clear of int64 wrap-around (listed as an assumption of the encoding)
+		return fmt.Sprintf("(<= (str.len %s) 4611686018427387904)", term)
 	}
 	if strings.HasPrefix(so, "S_") {
 		si := r.eng.Sorts.StructInfo(so)
